@@ -437,3 +437,132 @@ func c04ReplayRoute(c *vx.Ctx, v vx.Violation, raw []byte) string {
 }
 
 var _ = strings.Join
+
+// ---- routing across prime-level forks --------------------------------------------------------------
+
+// c04Forks: after every word (warm-up + word with conversions in flight) two SIBLING prime blocks P1
+// and P2 are built on the same parents. Node A sees P1 and then P2 (a reorganisation at all three
+// levels), node B only P2. What the dominant chain hands down with P2 (the inbound ETX list the
+// zone stores for it: ids, types, repriced values) must be identical on A and B, their canonical
+// projections must agree, and the blocks A then mines on P2 must be accepted by B.
+func c04Forks(c *vx.Ctx) {
+	p := c.Part("routing-forks")
+	maxLen := 3
+	if c.Thorough() {
+		maxLen = 5
+	}
+	words := c04Words(maxLen)
+	p.Bound("word_length", maxLen)
+	if c.Shard == 0 {
+		p.States = int64(len(words))
+	}
+	for i, w := range words {
+		if !c.Mine(int64(i)) {
+			continue
+		}
+		if c.Expired() {
+			p.Incomplete("deadline")
+			return
+		}
+		var key, desc, cls string
+		if perr := vx.Guard(func() { key, desc, cls = c04RunFork(w) }); perr != "" {
+			key, desc = "panic:"+vx.PanicSite(perr), perr
+		}
+		if key == "harness" {
+			c.HarnessError(fmt.Sprintf("fork word %q: %s", w, desc))
+			return
+		}
+		p.Transitions += 3
+		p.Traces++
+		if key != "" {
+			p.Outcome("VIOLATED:" + key)
+			w := w
+			if c.Confirm(desc, func() string {
+				var k string
+				vx.Guard(func() { k, _, _ = c04RunFork(w) })
+				return k
+			}) {
+				c.Violate("routing-forks", "forks:"+key, desc, map[string]string{"word": w})
+			}
+			continue
+		}
+		p.Outcome(cls)
+		if i%13 == 0 {
+			p.Sample(map[string]string{"word": w, "result": cls})
+		}
+	}
+}
+
+func c04EtxListKey(l types.Transactions) string {
+	var sb strings.Builder
+	for _, t := range l {
+		fmt.Fprintf(&sb, "%v/type%d/val%v/to%x;", c04IdOf(t), t.EtxType(), t.Value(), t.To().Bytes()[:3])
+	}
+	return sb.String()
+}
+
+func c04RunFork(word string) (string, string, string) {
+	// builder: produces the common history and the two siblings
+	x, err := newScen(3, false, nil)
+	if err != nil {
+		return "harness", err.Error(), ""
+	}
+	defer x.close()
+	if err := x.runWord(c04Warmup + word + "z"); err != nil {
+		return "harness", err.Error(), ""
+	}
+	common := append([]*types.WorkObject{}, x.blocks...)
+	p1, err := x.n.Build(core.VBuildOpts{Order: 0, Fill: true, Salt: 11})
+	if err != nil {
+		return "harness", "P1: " + err.Error(), ""
+	}
+	p2, err := x.n.Build(core.VBuildOpts{Order: 0, Fill: true, Salt: 23})
+	if err != nil {
+		return "harness", "P2: " + err.Error(), ""
+	}
+	if p1.Hash() == p2.Hash() {
+		return "harness", "siblings are identical", ""
+	}
+	mk := func(blocks ...*types.WorkObject) (*scen, error) {
+		s, err := newScen(3, false, nil)
+		if err != nil {
+			return nil, err
+		}
+		for i, b := range append(append([]*types.WorkObject{}, common...), blocks...) {
+			if r := s.n.Append(b); r.Err() != nil {
+				s.close()
+				return nil, fmt.Errorf("block %d (height %d): %v", i, b.NumberU64(2), r.Err())
+			}
+		}
+		return s, nil
+	}
+	a, err := mk(p1, p2)
+	if err != nil {
+		return "switch-to-sibling-prime-refused", fmt.Sprintf("word %q: node that saw P1 cannot switch to its sibling P2: %v", word, err), ""
+	}
+	defer a.close()
+	b, err := mk(p2)
+	if err != nil {
+		return "harness", "node B: " + err.Error(), ""
+	}
+	defer b.close()
+	la, lb := c04EtxListKey(a.n.VInboundEtxs(p2)), c04EtxListKey(b.n.VInboundEtxs(p2))
+	if la != lb {
+		return "handed-down-list-depends-on-siblings-seen", fmt.Sprintf("word %q: inbound ETXs stored for prime block P2 differ: node that also saw sibling P1 has [%s], node that only saw P2 has [%s]", word, la, lb), ""
+	}
+	if d := c10CanonDiff(a.n.VCanon(), b.n.VCanon()); d != "" {
+		return "canon:" + strings.SplitN(d, ":", 2)[0], fmt.Sprintf("word %q: after switching P1->P2 the node differs from the one that only saw P2:\n%s", word, c11Short(d)), ""
+	}
+	// A mines on, B must accept
+	for i, ch := range "zpz" {
+		o := core.VBuildOpts{Order: map[rune]int{'z': 2, 'p': 0}[ch], Fill: true}
+		blk, err := a.n.Mine(o)
+		if err != nil {
+			return "own-block-rejected-after-fork", fmt.Sprintf("word %q: node A rejects its own block %d after the fork: %v", word, i, err), ""
+		}
+		if r := b.n.Append(blk); r.Err() != nil {
+			return "follow-up-block-refused-by-peer", fmt.Sprintf("word %q: block %d mined by the node that saw both siblings is refused by the node that only saw P2: %v", word, i, r.Err()), ""
+		}
+	}
+	return "", "", fmt.Sprintf("inbound-with-P2=%d", len(a.n.VInboundEtxs(p2)))
+}
